@@ -10,10 +10,8 @@ Definition same_files (src dst : list ventry) : Prop :=
      exists d, In d dst /\ v_path d = v_path s /\ v_is_dir d = false /\ v_content d = v_content s /\ v_size d = v_size s) /\
   (forall d, In d dst -> v_is_dir d = false -> exists s, In s src /\ v_path s = v_path d /\ v_is_dir s = false).
 
-(* each path once per tree, and no path that is a file in one tree and a directory in the other *)
-Definition trees_wf (src dst : list ventry) : Prop :=
-  NoDup (map v_path src) /\ NoDup (map v_path dst) /\
-  (forall s d, In s src -> In d dst -> v_path s = v_path d -> v_is_dir s = v_is_dir d).
+(* each path once per tree (a path may be a file in one tree and a directory in the other) *)
+Definition trees_wf (src dst : list ventry) : Prop := NoDup (map v_path src) /\ NoDup (map v_path dst).
 
 Lemma lookup_in l : NoDup (map v_path l) -> forall e, In e l -> lookup l (v_path e) = Some e.
 Proof.
@@ -28,9 +26,6 @@ Qed.
 
 Lemma lookup_some l p d : lookup l p = Some d -> In d l /\ v_path d = p.
 Proof. unfold lookup. intro H. apply find_some in H. destruct H as [Hin Hp]. apply peqb_eq in Hp. split; assumption. Qed.
-
-Lemma lookup_none l p : lookup l p = None -> forall d, In d l -> v_path d <> p.
-Proof. unfold lookup. intros H d Hd E. pose proof (find_none _ _ H d Hd) as Hf. cbn in Hf. rewrite E, peqb_refl in Hf. discriminate. Qed.
 
 Lemma filter_nil_iff (A : Type) (f : A -> bool) l : filter f l = [] <-> forall x, In x l -> f x = false.
 Proof.
@@ -51,43 +46,52 @@ Proof.
     try discriminate; try (destruct H as (A & B & C & D); discriminate); auto.
 Qed.
 
-Definition cls (dst : list ventry) (e : ventry) : option cmp :=
-  match lookup dst (v_path e) with Some d => Some (compare CkContent e d) | None => None end.
+Definition cls m (dst : list ventry) (e : ventry) : option cmp :=
+  match lookup dst (v_path e) with Some d => Some (compare m e d) | None => None end.
 
-(* exit 0 exactly when the trees hold the same files with identical contents (content-comparing modes, no size bounds) *)
-Theorem verify_exit0_iff src dst :
-  trees_wf src dst -> (verify_exit (verify CkContent None None src dst) = 0%Z <-> same_files src dst).
+Lemma compare_match m s d : compare m s d = CmpMatch <-> v_is_dir d = false /\ v_content s = v_content d /\ v_size s = v_size d.
 Proof.
-  intros (Hns & Hnd & Hkind).
+  unfold compare. destruct (v_is_dir d); [split; [discriminate | intros [H _]; discriminate]|].
+  destruct (N.eqb_spec (v_content s) (v_content d)); destruct (N.eqb_spec (v_size s) (v_size d)); cbn; split; intro H;
+    try discriminate; try (destruct H as (_ & A & B); congruence); auto.
+Qed.
+
+Lemma compare_not_error m s d : compare m s d <> CmpError.
+Proof. unfold compare. destruct (v_is_dir d); [discriminate|]. destruct (_ && _); discriminate. Qed.
+
+(* exit 0 exactly when the trees hold the same files with identical contents -- every mode, type conflicts included *)
+Theorem verify_exit0_iff m src dst :
+  trees_wf src dst -> (verify_exit (verify m None None src dst) = 0%Z <-> same_files src dst).
+Proof.
+  intros (Hns & Hnd).
   set (sf := src_files None None src).
   assert (Hsf : forall e, In e sf <-> In e src /\ v_is_dir e = false).
   { intro e. unfold sf, src_files. rewrite filter_In. cbn. rewrite andb_true_r, negb_true_iff. reflexivity. }
-  assert (Hexit : verify_exit (verify CkContent None None src dst) = 0%Z <->
-                  (forall e, In e sf -> cls dst e = Some CmpMatch) /\
-                  (forall d, In d dst -> negb (v_is_dir d) && negb (existsb (fun e => peqb (v_path e) (v_path d)) src) = false)).
+  assert (Hexit : verify_exit (verify m None None src dst) = 0%Z <->
+                  (forall e, In e sf -> cls m dst e = Some CmpMatch) /\
+                  (forall d, In d dst -> negb (v_is_dir d) && negb (existsb (fun e => peqb (v_path e) (v_path d) && negb (v_is_dir e)) src) = false)).
   { rewrite exit0_iff. unfold verify. cbn [vr_errors vr_mismatched vr_only_src vr_only_dst]. fold sf.
     rewrite !map_nil_iff, !filter_nil_iff. split.
     - intros (Eerr & Emm & Eos & Eod). split; [|exact Eod]. intros e He.
       specialize (Eerr e He). specialize (Emm e He). specialize (Eos e He). unfold cls.
-      destruct (lookup dst (v_path e)) as [d|]; [|discriminate]. destruct (compare CkContent e d); try discriminate; reflexivity.
+      destruct (lookup dst (v_path e)) as [d|]; [|discriminate]. destruct (compare m e d); try discriminate; reflexivity.
     - intros [H1 H2]. repeat split; try exact H2; intros e He; specialize (H1 e He); unfold cls in H1;
-        destruct (lookup dst (v_path e)) as [d|]; try discriminate; destruct (compare CkContent e d); try discriminate; reflexivity. }
+        destruct (lookup dst (v_path e)) as [d|]; try discriminate; destruct (compare m e d); try discriminate; reflexivity. }
   rewrite Hexit. clear Hexit. split.
   - intros [H1 H2]. split.
     + intros s Hs Hsd. assert (Hin : In s sf) by (apply Hsf; split; assumption).
       specialize (H1 s Hin). unfold cls in H1. destruct (lookup dst (v_path s)) as [d|] eqn:El; [|discriminate].
       destruct (lookup_some _ _ _ El) as [Hd Hp]. exists d. split; [exact Hd|]. split; [exact Hp|].
-      inversion H1 as [Hc]. unfold compare in Hc. destruct (v_is_dir d); [discriminate|]. split; [reflexivity|].
-      destruct (N.eqb (v_content s) (v_content d) && N.eqb (v_size s) (v_size d)) eqn:Eb; [|discriminate].
-      apply andb_prop in Eb. destruct Eb as [E1 E2]. apply N.eqb_eq in E1, E2. split; congruence.
+      inversion H1 as [Hc]. apply compare_match in Hc. destruct Hc as (A & B & C). repeat split; congruence.
     + intros d Hd Hdd. specialize (H2 d Hd). rewrite Hdd in H2. cbn in H2. apply negb_false_iff in H2.
-      apply existsb_exists in H2. destruct H2 as (s & Hs & Ep). apply peqb_eq in Ep. exists s. split; [exact Hs|]. split; [exact Ep|].
-      rewrite (Hkind s d Hs Hd Ep). exact Hdd.
+      apply existsb_exists in H2. destruct H2 as (s & Hs & Ep). apply andb_prop in Ep. destruct Ep as [Ep Ef]. apply peqb_eq in Ep.
+      apply negb_true_iff in Ef. exists s. split; [exact Hs|]. split; [exact Ep | exact Ef].
   - intros [Hs Hd]. split.
     + intros e He. apply Hsf in He. destruct He as [He Hed]. destruct (Hs e He Hed) as (d & Hdin & Hp & Hdd & Hc & Hz).
-      unfold cls. rewrite <- Hp. rewrite (lookup_in dst Hnd d Hdin). unfold compare. rewrite Hdd, Hc, Hz, !N.eqb_refl. reflexivity.
+      unfold cls. rewrite <- Hp. rewrite (lookup_in dst Hnd d Hdin). f_equal. apply compare_match. repeat split; congruence.
     + intros d Hdin. destruct (v_is_dir d) eqn:Hdd; [reflexivity|]. cbn. apply negb_false_iff.
-      destruct (Hd d Hdin Hdd) as (s & Hs' & Ep & _). apply existsb_exists. exists s. split; [exact Hs' | apply peqb_eq; exact Ep].
+      destruct (Hd d Hdin Hdd) as (s & Hs' & Ep & Hf). apply existsb_exists. exists s. split; [exact Hs'|].
+      rewrite Hf. cbn. rewrite andb_true_r. apply peqb_eq. exact Ep.
 Qed.
 
 (* the three lists are exactly the true sets *)
@@ -95,10 +99,10 @@ Theorem verify_lists_exact m mn mx src dst p :
   (In p (vr_only_src (verify m mn mx src dst)) <->
      exists e, In e src /\ v_path e = p /\ v_is_dir e = false /\ size_filtered mn mx (v_size e) = false /\ lookup dst p = None) /\
   (In p (vr_only_dst (verify m mn mx src dst)) <->
-     exists d, In d dst /\ v_path d = p /\ v_is_dir d = false /\ forall e, In e src -> v_path e <> p) /\
-  (In p (vr_mismatched (verify CkContent mn mx src dst)) <->
+     exists d, In d dst /\ v_path d = p /\ v_is_dir d = false /\ forall e, In e src -> v_path e = p -> v_is_dir e = true) /\
+  (In p (vr_mismatched (verify m mn mx src dst)) <->
      exists e d, In e src /\ v_path e = p /\ v_is_dir e = false /\ size_filtered mn mx (v_size e) = false /\ lookup dst p = Some d /\
-                 v_is_dir d = false /\ (v_content e <> v_content d \/ v_size e <> v_size d)).
+                 (v_is_dir d = true \/ v_content e <> v_content d \/ v_size e <> v_size d)).
 Proof.
   unfold verify. cbn [vr_only_src vr_only_dst vr_mismatched]. repeat split.
   - intro H. apply in_map_iff in H. destruct H as (e & Ep & He). apply filter_In in He. destruct He as [He Hc].
@@ -109,22 +113,30 @@ Proof.
     + rewrite Ep, Hl. reflexivity.
   - intro H. apply in_map_iff in H. destruct H as (d & Ep & Hd). apply filter_In in Hd. destruct Hd as [Hd Hf].
     apply andb_prop in Hf. destruct Hf as [Hf1 Hf2]. apply negb_true_iff in Hf1, Hf2. exists d. repeat split; try assumption.
-    intros e He Epe. assert (existsb (fun e0 => peqb (v_path e0) (v_path d)) src = true); [|congruence].
-    apply existsb_exists. exists e. split; [exact He | apply peqb_eq; congruence].
+    intros e He Epe. destruct (v_is_dir e) eqn:Ed; [reflexivity|]. exfalso.
+    assert (X : existsb (fun e0 => peqb (v_path e0) (v_path d) && negb (v_is_dir e0)) src = true); [|congruence].
+    apply existsb_exists. exists e. split; [exact He|]. rewrite Ed. cbn. rewrite andb_true_r. apply peqb_eq. congruence.
   - intros (d & Hd & Ep & Hdd & Hn). apply in_map_iff. exists d. split; [exact Ep|]. apply filter_In. split; [exact Hd|].
-    rewrite Hdd. cbn. apply negb_true_iff. destruct (existsb (fun e => peqb (v_path e) (v_path d)) src) eqn:Ex; [|reflexivity].
-    exfalso. apply existsb_exists in Ex. destruct Ex as (e & He & Epe). apply peqb_eq in Epe. apply (Hn e He). congruence.
+    rewrite Hdd. cbn. apply negb_true_iff. destruct (existsb (fun e => peqb (v_path e) (v_path d) && negb (v_is_dir e)) src) eqn:Ex; [|reflexivity].
+    exfalso. apply existsb_exists in Ex. destruct Ex as (e & He & Epe). apply andb_prop in Epe. destruct Epe as [Epe Ef].
+    apply peqb_eq in Epe. apply negb_true_iff in Ef. rewrite (Hn e He) in Ef by congruence. discriminate.
   - intro H. apply in_map_iff in H. destruct H as (e & Ep & He). apply filter_In in He. destruct He as [He Hc].
     unfold src_files in He. apply filter_In in He. destruct He as [He Hf]. apply andb_prop in Hf. destruct Hf as [Hf1 Hf2].
     apply negb_true_iff in Hf1, Hf2. rewrite Ep in Hc. destruct (lookup dst p) as [d|] eqn:El; [|discriminate].
-    exists e, d. repeat split; try assumption. 
-    + unfold compare in Hc. destruct (v_is_dir d); [discriminate | reflexivity].
-    + unfold compare in Hc. destruct (v_is_dir d); [discriminate|].
-      destruct (N.eqb_spec (v_content e) (v_content d)); [|left; assumption]. destruct (N.eqb_spec (v_size e) (v_size d)); [|right; assumption].
-      cbn in Hc. discriminate.
-  - intros (e & d & He & Ep & Hd & Hs & Hl & Hdd & Hne). apply in_map_iff. exists e. split; [exact Ep|]. apply filter_In. split.
+    exists e, d. repeat split; try assumption.
+    unfold compare in Hc. destruct (v_is_dir d); [left; reflexivity|]. right.
+    destruct (N.eqb_spec (v_content e) (v_content d)); [|left; assumption]. destruct (N.eqb_spec (v_size e) (v_size d)); [|right; assumption].
+    cbn in Hc. discriminate.
+  - intros (e & d & He & Ep & Hd & Hs & Hl & Hne). apply in_map_iff. exists e. split; [exact Ep|]. apply filter_In. split.
     + unfold src_files. apply filter_In. split; [exact He|]. rewrite Hd, Hs. reflexivity.
-    + rewrite Ep, Hl. unfold compare. rewrite Hdd. destruct Hne as [Hne|Hne].
+    + rewrite Ep, Hl. unfold compare. destruct (v_is_dir d) eqn:Edd; [reflexivity|]. destruct Hne as [Hne|[Hne|Hne]]; [discriminate | |].
       * destruct (N.eqb_spec (v_content e) (v_content d)); [contradiction | reflexivity].
       * destruct (N.eqb_spec (v_size e) (v_size d)); [contradiction|]. rewrite andb_false_r. reflexivity.
+Qed.
+
+(* no read error arises from the comparison itself *)
+Theorem verify_no_errors m mn mx src dst : vr_errors (verify m mn mx src dst) = [].
+Proof.
+  unfold verify. cbn [vr_errors]. apply map_nil_iff. apply filter_nil_iff. intros e _.
+  destruct (lookup dst (v_path e)) as [d|]; [|reflexivity]. pose proof (compare_not_error m e d). destruct (compare m e d); try reflexivity. contradiction.
 Qed.
